@@ -17,6 +17,7 @@ by single spaces: what white-space processing leaves under a collapsing `white-s
 `heuristic_transparent` is false there (`Witness/C09`).
 -/
 import WpModel.Lemmas.LineBreak
+import WpModel.Lemmas.InlineHyphen
 
 namespace Wp.C09
 open Wp Wp.Py Wp.Pango Wp.LB Wp.C09L
@@ -344,6 +345,65 @@ def examplePara : Para :=
 
 example : (paragraph examplePara).toOption.map (fun ls => ls.map (fun l => (l.x, l.y, l.w, l.h))) =
     some [((19 : Rat) / 2, (5 : Rat), (70 : Rat), (12 : Rat)), (29 / 2, 17, 60, 12), (79 / 2, 29, 10, 12)] := by
+  decide +kernel
+
+/-! ### dictionary hyphenation (step 4) and nested inline boxes -/
+
+/-- Without `hyphens: auto` + language the model with step 4 is the model without it. -/
+theorem hyphenation_off_is_plain (st : Style) (text : Text) (w : MaxW) (a b : Bool) :
+    Hy.splitFirstLineHy st none text w a b = splitFirstLine st text w a b := rfl
+
+/-- **breaks at dictionary hyphenation points only, and only at those of the element's own limits**:
+whenever step 4 hyphenates, the next word (delimited by Pango's word boundaries in the second-line
+text) has at least `hyphenate-limit-chars` (total) letters, and the next line starts right after one
+of the first parts that the dictionary consulted *for this element's left / right limits* (`cfg.dict`)
+lists for that word.  (A dictionary cached for another element's limits breaks this: seed C09-2.) -/
+theorem hyphenation_only_at_dictionary_points (st : Style) (cfg : Hy.Cfg) (maxW : MaxW) (flt slt : Text)
+    (s : Hy.State) (hs : s.hyphenated = false) (h : (Hy.step4 st cfg maxW flt slt s).hyphenated = true) :
+    ∃ sw ew parts k, Hy.nextWordBoundaries slt = some (sw, ew) ∧ cfg.total ≤ ew - sw ∧
+      (cfg.dict.find? (fun e => e.1 == (slt.take ew).drop sw)).map (·.2) = some parts ∧ k ∈ parts ∧
+      (Hy.step4 st cfg maxW flt slt s).ri =
+        some (flt ++ slt.take sw ++ ((slt.take ew).drop sw).take k).length :=
+  C09L.step4_breaks_at_dictionary_points st cfg maxW flt slt s hs h
+
+example : (Hy.splitFirstLineHy { ws := .normal, wb := .normal, ow := .normal, fs := 10 }
+    (some { total := 5, zonePct := false, zone := 0, hchar := "‐".toList,
+            dict := [("remember".toList, [5, 2]), ("yesterday".toList, [6, 3])] })
+    "remember yesterday".toList (.fin 60) true false).toOption
+    = some { length := 5, resume := some 5, width := 60, text := "remem‐".toList } := by decide +kernel
+example : (Hy.splitFirstLineHy { ws := .normal, wb := .normal, ow := .normal, fs := 10 }
+    (some { total := 5, zonePct := false, zone := 0, hchar := "‐".toList,
+            dict := [("remember".toList, [2]), ("yesterday".toList, [6, 3])] })
+    "remember yesterday".toList (.fin 60) true false).toOption
+    = some { length := 2, resume := some 2, width := 30, text := "re‐".toList } := by decide +kernel
+
+/-- **an inline box carries its start spacing on its first fragment only and its end spacing on its
+last fragment only** (`remove_decoration(start=not is_start, end=not is_end)`), and the fragment sits
+at the `position_x` it was given. -/
+theorem inline_spacing_first_last (split : IR.Split) (ls rs : Rat) (deco : Bool) (kids : List IR.Node)
+    (posX maxX : Rat) (skip : Option IR.Skip) (o : IR.LevelOut)
+    (h : IR.boxLevel split ls rs deco kids posX maxX skip = .ok o) :
+    ∃ w frags, o.frag = some (.box posX w (if skip.isNone then ls else 0) (if o.resume.isNone then rs else 0)
+      deco frags) :=
+  C09L.box_spacing_first_last split ls rs deco kids posX maxX skip o h
+
+/-- shifting a box (start spacing, `text-align`) does not change its extent -/
+theorem translate_keeps_extent (dx : Rat) (f : IR.Frag) : (f.translate dx).marginWidth = f.marginWidth :=
+  C09L.translate_marginWidth dx f
+
+/-- the seed-1 shape: a span with end spacing, three children, ending on a continuation line — the
+end spacing (20) is reserved for the last child there too: `ccc` / `ddd` + 20, not `ccc ddd` + 20 = 90 -/
+def seedShapePara : IR.Para :=
+  { st := { ws := .normal, wb := .normal, ow := .normal, fs := 10 }
+    kids := [.box 0 20 true [.text "aaa ".toList, .box 0 0 false [.text "bbb".toList], .text " ccc ddd".toList]]
+    lineHeight := 10
+    cbx := 0
+    width := 80
+    indent := 0
+    align := { alignAll := .start, alignLast := none, ws := .normal, rtl := false }
+    y := 0 }
+
+example : (IR.paragraph seedShapePara).toOption.map (fun ls => ls.map (·.w)) = some [70, 30, 50] := by
   decide +kernel
 
 end Wp.C09
